@@ -11,6 +11,7 @@ package dnsserver_test
 import (
 	"bytes"
 	"context"
+	"crypto/ed25519"
 	"crypto/tls"
 	"encoding/base64"
 	"encoding/binary"
@@ -20,12 +21,15 @@ import (
 	"net"
 	"net/http"
 	"net/url"
+	"os"
 	"strings"
+	"sync/atomic"
 	"testing"
 	"time"
 
 	"github.com/AdguardTeam/AdGuardDNS/internal/dnsserver"
 	"github.com/AdguardTeam/AdGuardDNS/internal/dnsserver/dnsservertest"
+	dnssrvprom "github.com/AdguardTeam/AdGuardDNS/internal/dnsserver/prometheus"
 	"github.com/ameshkov/dnscrypt/v2"
 	"github.com/ameshkov/dnsstamps"
 	"github.com/miekg/dns"
@@ -73,6 +77,11 @@ func vlabStart(t testing.TB, h dnsserver.Handler, c vlabConf) (l *vlab) {
 	l.tlsConf = dnsservertest.CreateServerTLSConfig("example.org")
 	ctx := context.Background()
 
+	// the metrics decorator of the production wiring (dnssvc.New), one namespace per laboratory
+	ml := dnssrvprom.NewServerMetricsListener(fmt.Sprintf("vlab%d_%d", os.Getpid(), vlabSeq.Add(1)))
+	base := func(name string) dnsserver.ConfigBase {
+		return dnsserver.ConfigBase{Name: name, Addr: "127.0.0.1:0", Handler: h, Metrics: ml}
+	}
 	maxUDP := c.MaxUDPRespSize
 	if maxUDP == 0 && !c.ZeroMaxUDP {
 		maxUDP = dns.MaxMsgSize
@@ -80,7 +89,7 @@ func vlabStart(t testing.TB, h dnsserver.Handler, c vlabConf) (l *vlab) {
 	var s *dnsserver.ServerDNS
 	if err := vlabRetry(func() error {
 		s = dnsserver.NewServerDNS(dnsserver.ConfigDNS{
-			ConfigBase:     dnsserver.ConfigBase{Name: "vlab-dns", Addr: "127.0.0.1:0", Handler: h},
+			ConfigBase:     base("vlab-dns"),
 			MaxUDPRespSize: maxUDP,
 			ReadTimeout:    2 * time.Second, TCPIdleTimeout: 2 * time.Second,
 		})
@@ -92,7 +101,7 @@ func vlabStart(t testing.TB, h dnsserver.Handler, c vlabConf) (l *vlab) {
 	l.udp, l.tcp = s.LocalUDPAddr(), s.LocalTCPAddr()
 
 	st := dnsserver.NewServerTLS(dnsserver.ConfigTLS{
-		ConfigDNS: dnsserver.ConfigDNS{ConfigBase: dnsserver.ConfigBase{Name: "vlab-dot", Addr: "127.0.0.1:0", Handler: h},
+		ConfigDNS: dnsserver.ConfigDNS{ConfigBase: base("vlab-dot"),
 			ReadTimeout: 2 * time.Second, TCPIdleTimeout: 2 * time.Second},
 		TLSConfig: l.tlsConf.Clone(),
 	})
@@ -104,8 +113,12 @@ func vlabStart(t testing.TB, h dnsserver.Handler, c vlabConf) (l *vlab) {
 
 	var sh *dnsserver.ServerHTTPS
 	err := vlabRetry(func() (e error) {
-		sh, e = dnsservertest.RunLocalHTTPSServer(h, l.tlsConf.Clone(), nil)
-		return e
+		tls2, tls3 := l.tlsConf.Clone(), l.tlsConf.Clone()
+		tls2.NextProtos, tls3.NextProtos = dnsserver.NextProtoDoH, dnsserver.NextProtoDoH3
+		cb := base("vlab-doh")
+		cb.Network = dnsserver.NetworkAny
+		sh = dnsserver.NewServerHTTPS(dnsserver.ConfigHTTPS{ConfigBase: cb, TLSConfDefault: tls2, TLSConfH3: tls3})
+		return sh.Start(ctx)
 	})
 	if err != nil {
 		t.Fatalf("doh: %v", err)
@@ -115,15 +128,21 @@ func vlabStart(t testing.TB, h dnsserver.Handler, c vlabConf) (l *vlab) {
 
 	qtls := l.tlsConf.Clone()
 	qtls.NextProtos = dnsserver.NextProtoDoQ
-	sq, qaddr, err := dnsservertest.RunLocalQUICServer(h, qtls)
+	var sq *dnsserver.ServerQUIC
+	err = vlabRetry(func() error {
+		sq = dnsserver.NewServerQUIC(dnsserver.ConfigQUIC{TLSConfig: qtls, ConfigBase: base("vlab-doq")})
+		return sq.Start(ctx)
+	})
 	if err != nil {
 		t.Fatalf("doq: %v", err)
 	}
 	l.stops = append(l.stops, func() { _ = sq.Shutdown(ctx) })
-	l.doq = qaddr
+	l.doq = sq.LocalUDPAddr().(*net.UDPAddr)
 
 	if !c.NoDNSCrypt {
-		l.dc = dnsservertest.RunDNSCryptServer(t, h)
+		l.dc = vlabDNSCrypt(t, base("vlab-dnscrypt"))
+		dcs := l.dc.Srv
+		l.stops = append(l.stops, func() { _ = dcs.Shutdown(ctx) })
 	}
 
 	ctls := l.tlsConf.Clone()
@@ -141,6 +160,36 @@ func vlabStart(t testing.TB, h dnsserver.Handler, c vlabConf) (l *vlab) {
 	l.dohCl = &http.Client{Transport: tr, Timeout: 5 * time.Second}
 	t.Cleanup(l.Stop)
 	return l
+}
+
+var vlabSeq atomic.Int64
+
+// vlabDNSCrypt is dnsservertest.RunDNSCryptServer with a chosen base configuration.
+func vlabDNSCrypt(t testing.TB, cb dnsserver.ConfigBase) (s *dnsservertest.TestDNSCryptServer) {
+	s = &dnsservertest.TestDNSCryptServer{ProviderName: "example.org"}
+	rc, err := dnscrypt.GenerateResolverConfig(s.ProviderName, nil)
+	if err != nil {
+		t.Fatalf("dnscrypt: %v", err)
+	}
+	cert, err := rc.CreateCert()
+	if err != nil {
+		t.Fatalf("dnscrypt: %v", err)
+	}
+	priv, err := dnscrypt.HexDecodeKey(rc.PrivateKey)
+	if err != nil {
+		t.Fatalf("dnscrypt: %v", err)
+	}
+	s.ResolverPk = ed25519.PrivateKey(priv).Public().(ed25519.PublicKey)
+	err = vlabRetry(func() error {
+		s.Srv = dnsserver.NewServerDNSCrypt(dnsserver.ConfigDNSCrypt{ConfigBase: cb, DNSCryptProviderName: s.ProviderName,
+			DNSCryptResolverCert: cert})
+		return s.Srv.Start(context.Background())
+	})
+	if err != nil {
+		t.Fatalf("dnscrypt: %v", err)
+	}
+	s.ServerAddr = s.Srv.LocalUDPAddr().String()
+	return s
 }
 
 func (l *vlab) Stop() {
